@@ -12,7 +12,7 @@ import itertools
 from typing import Dict, List
 
 from ..model import Program, AnalysisError, dotted, walk_local
-from ..report import RuleResult
+from ..report import RuleResult, guard
 from ..dtable import explore, Sym, int_models
 from ..cfg import CFG
 from ..astutil import src, site, calls_in, call_name, is_self_attr, is_super_call, kwarg, arg_or_kw, const_value
@@ -517,6 +517,13 @@ def _hv_truth(prog):
     return hv_truth(prog)
 
 
+def _domain_given(prog):
+    # what is counted are the solutions over the domain the query was given: an empty domain has none (the(...) -> NoSolutionFound, Exactly(0) holds)
+    from .c13 import domain_given
+
+    return domain_given(prog)
+
+
 def run(prog: Program, tier: str) -> List[RuleResult]:
     # thorough: every cell is witnessed by all integer models up to 8 instead of 4 (same cells: the ordering domain is finite)
-    return [qc_table(prog, 9 if tier == "thorough" else 4), qc_ctor(prog), qc_path(prog), qc_map(prog), qc_errors(prog), _opt_truth(prog), _domain_cache(prog), _hv_truth(prog)]
+    return [guard(lambda: qc_table(prog, 9 if tier == "thorough" else 4)), guard(lambda: qc_ctor(prog)), guard(lambda: qc_path(prog)), guard(lambda: qc_map(prog)), guard(lambda: qc_errors(prog)), guard(lambda: _opt_truth(prog)), guard(lambda: _domain_cache(prog)), guard(lambda: _hv_truth(prog)), guard(lambda: _domain_given(prog))]
